@@ -214,9 +214,15 @@ impl Prop for C10 {
 					if recips.contains(&(w, i)) {
 						continue;
 					}
-					// same key under another (wallet, index)? (never, but do not assume)
+					// an identity is a (wallet, derivation index) pair, not an address: if
+					// another index of a wallet came out with a recipient's key, that key
+					// is exactly the "other key" that must not open the message
 					if let Some(a) = addr_of(w, i) {
 						if addrs.iter().any(|x| x.pub_key == a.pub_key) {
+							problems.push((
+								"non_recipient_decoded:identities_share_a_key".into(),
+								format!("wallet {} index {} is not a recipient but holds the same slatepack key as one", w, i),
+							));
 							continue;
 						}
 					}
